@@ -227,6 +227,7 @@ fn unlock_count_stub<T: ?Sized>(_l: &RwLock<T>) {
 }
 
 //@ obligation: C12.3a
+//@ property: C12 C09
 //@ kind: K3
 //@ complete: yes
 //@ functions: RwLock::lock
@@ -287,6 +288,7 @@ fn lock_cancelled_stub<T: ?Sized>(_l: &RwLock<T>) -> Result<(), ParkError> {
 }
 
 //@ obligation: C12.3b
+//@ property: C12 C09
 //@ kind: K3
 //@ complete: yes
 //@ functions: RwLock::read, RwLock::write
